@@ -28,7 +28,7 @@ const VERIF: &str = "/verif";
 fn main() {
     let args: Vec<String> = std::env::args().collect();
     if args.len() < 2 {
-        eprintln!("usage: vloom <C08|L07|L02|L03> --tier quick|thorough | --run <i> --pb N --timeouts K");
+        eprintln!("usage: vloom <C08|L07|L17|L02|L03|L01> --tier quick|thorough | --run <i> --pb N --timeouts K");
         std::process::exit(2);
     }
     let family = args[1].clone();
@@ -81,7 +81,7 @@ fn main() {
         let cfg = v["config"].as_str().unwrap_or("");
         let k: usize = cfg.split("timeouts that fire: ").nth(1).and_then(|r| r.split(',').next()).and_then(|x| x.trim().parse().ok()).unwrap_or(0);
         let pbound: usize = cfg.split("preemption bound ").nth(1).and_then(|x| x.trim().parse().ok()).unwrap_or(2);
-        for fam in ["C08", "L01", "L02", "L03", "L07"] {
+        for fam in ["C08", "L01", "L02", "L03", "L07", "L17"] {
             for t in ["quick", "thorough"] {
                 let progs = programs_for(fam, t);
                 if let Some(p) = progs.iter().find(|p| p.history() == hist) {
@@ -419,6 +419,7 @@ fn family_property(f: &str) -> &'static str {
     match f {
         "C08" => "C08",
         "L07" => "C07",
+        "L17" => "C17",
         "L02" => "C02",
         "L03" => "C03",
         "L01" => "C01",
